@@ -113,6 +113,9 @@ func baseTemplate(setName, tid string, nclaims int) v1.PodTemplateSpec {
 		ObjectMeta: metav1.ObjectMeta{Labels: map[string]string{"app": setName}},
 		Spec:       v1.PodSpec{Containers: []v1.Container{{Name: "main", Image: tmplImage(tid)}}},
 	}
+	if tid == "t4" { // the template without labels (the CRD schema does not look into the template)
+		s.Spec.Template.Labels = nil
+	}
 	apps.SetObjectDefaults_StatefulSet(s)
 	// through JSON once, so that the representation is the one a decoded object has
 	b, _ := json.Marshal(s.Spec.Template)
@@ -239,7 +242,7 @@ func (w *World) natural(setName, tid string, c int32) *kubeapps.ControllerRevisi
 	return got
 }
 
-var allTmpls = []string{"t0", "t1", "t2", "t3"}
+var allTmpls = []string{"t0", "t1", "t2", "t3", "t4"}
 
 func (w *World) warm(setName string) {
 	for _, t := range allTmpls {
